@@ -243,6 +243,9 @@ func (m *Monitors) onERS(inv *simapi.Invocation, out kit.Outcome) {
 	rsTpl := &v.RS.Spec.Template
 	role := v.Role
 	ctx.Count("sim.ers-role." + role)
+	if role == "canary" && oracle.RSCond(v.RS, v1.ConditionTypeCanaryFailed) {
+		ctx.Count("C06.sim-syncs-of-failed-canary")
+	}
 	canaryInProgress := v.EDS.Status.Canary != nil
 	upToDate := kit.MarkerOfTemplate(rsTpl) == kit.MarkerOfTemplate(&v.EDS.Spec.Template)
 
@@ -321,6 +324,7 @@ func (m *Monitors) onERS(inv *simapi.Invocation, out kit.Outcome) {
 			if kit.MarkerOfPod(pod) != kit.MarkerOfTemplate(rsTpl) {
 				m.viol("C13", "C13.pod-template-faithful", nil, inv, d)
 			}
+			ctx.Count("C10.sim-pod-creates-judged")
 			if pod.Labels[v1.ExtendedDaemonSetNameLabelKey] != v.EDS.Name || pod.Labels[v1.ExtendedDaemonSetReplicaSetNameLabelKey] != v.RS.Name || pod.Namespace != v.RS.Namespace {
 				m.viol("C10", "C10.labels", nil, inv, d)
 			}
@@ -973,6 +977,7 @@ func (m *Monitors) onEDS(inv *simapi.Invocation, out kit.Outcome) {
 			}
 		}
 		added, seen := 0, map[string]bool{}
+		ctx.Count("C15.sim-canary-lists-judged")
 		for _, n := range written.Status.Canary.Nodes {
 			if seen[n] {
 				m.viol("C15", "C15.distinct", map[string]string{"sim": "true"}, inv, nil)
